@@ -13,7 +13,7 @@
 EXTENDS Emit
 
 Grid == IF Thorough THEN Shapes(3, 3) \cup Shapes(4, 2)
-        ELSE Shapes(2, 2) \cup {<<3>>, <<2, 3>>, <<2, 1, 2>>, <<1, 2, 1, 2>>, <<6>>, <<4, 5>>, <<2, 5, 3>>}
+        ELSE Shapes(2, 2) \cup {<<3>>, <<2, 3>>, <<2, 1, 2>>, <<1, 2, 1, 2>>, <<6>>, <<4, 5>>, <<2, 5, 3>>, <<17>>, <<18, 2>>}
 GridSeq == SetToSeq(Grid)
 Slopes == <<Q(1, 100), Zero, Half, QI(-1), QI(3)>>
 Acts == <<"relu", "sigmoid", "tanhact">>
@@ -25,7 +25,7 @@ SoftDescs == Flatten2([i \in DOMAIN GridSeq |-> Flatten2([deep \in 1..2 |->
    [d \in 1..Len(GridSeq[i]) |-> <<"softmax", GridSeq[i], deep = 2, d - 1>>]])])
 Descs == MyCases(ElemDescs \o SoftDescs)
 
-XDom(act) == CASE act \in {"relu", "leakyrelu"} -> "zero,any,ties"
+XDom(act) == CASE act \in {"relu", "leakyrelu"} -> "zero,any,ties,nearzero"
                [] act = "softmax" -> "any,big"
                [] OTHER -> "big,zero,any"
 
